@@ -307,7 +307,7 @@ func init() {
 	// C19: three ledgers sharing a bucket (and one alone in another), same account names, references,
 	// idempotency keys and transaction ids everywhere; a ledger is added to the bucket mid-history.
 	register(Profile{Property: "C19", Name: "write-isolation", Gen: func(r *RNG, seed uint64, tier string) (*Scenario, *ExploreCfg) {
-		sc := &Scenario{Property: "C19", Profile: "write-isolation", Knobs: randomKnobs(r), Checks: []string{"isolation", "logs-match-ops", "replay", "conservation", "statements-stay-in-ledger"}}
+		sc := &Scenario{Property: "C19", Profile: "write-isolation", Knobs: randomKnobs(r), Checks: []string{"isolation", "logs-match-ops", "replay", "conservation", "statements-stay-in-ledger", "reads-are-scoped"}}
 		g := &gen{r: r, sc: sc}
 		ledgers := []string{"l1", "l2", "l3", "solo"}
 		for _, l := range ledgers[:2] {
